@@ -966,6 +966,32 @@ func init() {
 			m.notes[key] = v
 			return v
 		},
+		// sha256.Sum256(data) = New(); Write(data); Sum(nil) - expressed through sha256.New so that the digest
+		// model a harness installs for New also answers the one-shot form
+		"crypto/sha256.Sum256": func(m *Machine, a []Val) Val {
+			pkg := m.prog.ImportedPackage("crypto/sha256")
+			if pkg == nil || pkg.Func("New") == nil {
+				m.incon("crypto/sha256 not loaded")
+			}
+			h, ok := m.callFunction(pkg.Func("New"), nil, nil).(Iface)
+			if !ok || h.T == nil {
+				m.incon("sha256.New returned no hash")
+			}
+			method := func(name string, args ...Val) Val {
+				sel := m.prog.MethodSets.MethodSet(h.T).Lookup(nil, name)
+				if sel == nil {
+					m.incon("hash without method " + name)
+				}
+				return m.callFunction(m.prog.MethodValue(sel), append([]Val{h.V}, args...), nil)
+			}
+			method("Write", a[0])
+			sum := method("Sum", Slice{Nil: true, Off: CI(64, 0), Len: CI(64, 0), Cap: CI(64, 0)}).(Slice)
+			out := newByteArr(CI(64, 32))
+			for i := uint64(0); i < 32; i++ {
+				m.baSto(out, CI(64, i), m.baSel(sum.B, m.add(sum.Off, CI(64, i))))
+			}
+			return out
+		},
 		"runtime.Gosched": func(m *Machine, a []Val) Val { return nil },
 		"os.Getenv":       func(m *Machine, a []Val) Val { return Str{} },
 		"bufio.NewReader": func(m *Machine, a []Val) Val {
